@@ -96,9 +96,19 @@ def no_revisit_evidence(p_mt, u_mt, tol=1e-9):
             return None
         return col.o[x.obs_ne].get(x.key)
     for P, X in zip(lb, lb[1:]):
-        if P.obs_ne == 0:
-            continue
         Pu, Xu = entry(u_mt, P), entry(u_mt, X)
+        if P.obs_ne == 0:
+            # second path-dependent ingredient (DistanceMatcher only): the transition INTO a non-emitting state adds the
+            # distances (d_o, d_s) accumulated by the predecessor, i.e. by the predecessor's own best predecessor
+            if (X.obs_ne != 0 and hasattr(P, "d_o") and Pu is not None and not Pu.stop
+                    and Pu.logprob >= P.logprob - tol * max(1.0, abs(P.logprob))
+                    and {q.key for q in Pu.prev} != {q.key for q in P.prev}
+                    and (abs(Pu.d_o - P.d_o) > 1e-12 or abs(Pu.d_s - P.d_s) > 1e-12)
+                    and (Xu is None or Xu.stop or Xu.logprob < X.logprob - tol * max(1.0, abs(X.logprob)))):
+                return ("accumulated-distances", f"step {P.key} -> {X.key}: unpruned holds {P.key} at {Pu.logprob!r} (pruned {P.logprob!r}) reached from "
+                        f"{[q.key for q in Pu.prev]} with accumulated (d_o, d_s) = ({Pu.d_o!r}, {Pu.d_s!r}) instead of ({P.d_o!r}, {P.d_s!r}); the transition into the "
+                        f"non-emitting state {X.key} adds them and comes out at {None if Xu is None else Xu.logprob!r} instead of {X.logprob!r}")
+            continue
         if Pu is None or Pu.stop:
             continue
         if not (Pu.logprob >= P.logprob - tol * max(1.0, abs(P.logprob))):
@@ -112,7 +122,7 @@ def no_revisit_evidence(p_mt, u_mt, tol=1e-9):
         except Exception:
             forbidden = False
         if forbidden:
-            return f"step {P.key} -> {X.key}: unpruned holds {P.key} at {Pu.logprob!r} (pruned {P.logprob!r}) with predecessor {[q.key for q in Pu.prev]} instead of {[q.key for q in P.prev]}; its chain has visited the end node of {X.key}, so the move is not made"
+            return "no-revisit", f"step {P.key} -> {X.key}: unpruned holds {P.key} at {Pu.logprob!r} (pruned {P.logprob!r}) with predecessor {[q.key for q in Pu.prev]} instead of {[q.key for q in P.prev]}; its chain has visited the end node of {X.key}, so the move is not made"
     return None
 
 
@@ -205,8 +215,9 @@ def check_case(ctx, case):
             # one more way in which the unpruned search is not exhaustive, recognised from evidence in the two lattices only
             why = no_revisit_evidence(sib["pruned"], sib["unpruned"])
             if why:
-                mode = "heuristic:nonemitting-no-revisit-rule"
-                ev = " | " + why
+                mode = {"no-revisit": "heuristic:nonemitting-no-revisit-rule",
+                        "accumulated-distances": "heuristic:distance-nonemitting-accumulated-distances"}[why[0]]
+                ev = " | " + why[1]
         if pidx > uidx:
             ctx.violation(f"C07:pruned-run-matched-more-than-unpruned:{mode}", case, f"W={cfg['width']}: pruned idx {pidx}, unpruned idx {uidx}{ev}")
         elif p["complete"] and u["complete"] and not close_leq(p["best"], u["best"]):
